@@ -4,8 +4,8 @@
     specification LexC, with which input and output are re-lexed on every explored run, partitions a text without
     loss.  The tokenizer and the passes between tokenizer and output are contracts (K_lossless, K_tok, K_space),
     evaluated on every explored run: see DESIGN.md. *)
-From Coq Require Import List ZArith Bool.
-From UV Require Import Model.Render Model.LexC Proofs.RenderProofs Proofs.RenderText Proofs.LexCProofs.
+From Coq Require Import List ZArith Bool Permutation.
+From UV Require Import Model.Render Model.LexC Proofs.RenderProofs Proofs.RenderText Proofs.LexCProofs Model.ChunkList Proofs.ChunkListProofs.
 Import ListNotations.
 Local Open Scope Z_scope.
 
@@ -44,3 +44,57 @@ Example C02_lex_example :
      (KDirHash,1%nat,false);(KWord,7%nat,true);(KStr,7%nat,true);(KDirEnd,1%nat,true);
      (KStr,8%nat,false)].
 Proof. vm_compute. reflexivity. Qed.
+
+(** ---- the chunk list itself (Model/ChunkList.v <-> src/ListManager.h, src/chunk.cpp; tie: hook UNC_VERIF_LISTOPS) ----
+    "no token is dropped, duplicated or reordered" needs the list surgery of the passes to keep the list a list. *)
+Local Close Scope Z_scope.
+Local Open Scope nat_scope.
+Theorem C02_list_remove : forall s l x, repr s l -> In x l ->
+  repr (remove s x) (rem x l) /\ nxt (remove s x) x = 0 /\ prv (remove s x) x = 0 /\ isnl (remove s x) = isnl s /\ nlc (remove s x) = nlc s.
+Proof. exact remove_abs. Qed.
+Print Assumptions C02_list_remove.
+
+Theorem C02_list_add_after : forall s l r o, repr s l -> In r l -> o <> 0 -> ~ In o l ->
+  repr (add_after s o r) (ins_after r o l) /\ isnl (add_after s o r) = isnl s /\ nlc (add_after s o r) = nlc s.
+Proof. exact add_after_abs. Qed.
+Print Assumptions C02_list_add_after.
+
+Theorem C02_move_after_moves_one_chunk : forall s l x r, repr s l -> In x l -> In r l -> x <> r ->
+  repr (move_after s x r) (ins_after r x (rem x l)).
+Proof. exact move_after_abs. Qed.
+Print Assumptions C02_move_after_moves_one_chunk.
+
+Theorem C02_list_surgery_refines_the_abstract_list : forall fuel ops s l, repr s l -> oks l ops ->
+  repr (fold_left (step fuel) ops s) (fold_left abs_op ops l).
+Proof. exact run_refines. Qed.
+Print Assumptions C02_list_surgery_refines_the_abstract_list.
+
+Theorem C02_moves_keep_every_chunk : forall fuel ops s l, repr s l -> oks l ops -> all_moves ops ->
+  exists l', repr (fold_left (step fuel) ops s) l' /\ Permutation l l'.
+Proof. exact moves_permute. Qed.
+Print Assumptions C02_moves_keep_every_chunk.
+
+Theorem C02_walk_sees_the_list : forall s l fuel, repr s l -> length l < fuel -> to_list fuel s = l.
+Proof. exact to_list_repr. Qed.
+Print Assumptions C02_walk_sees_the_list.
+
+(** PARTIAL for Swap: proved for the general branch under the two preconditions the code does not test; the statement
+    without them is false of the model and of the code (next theorem; replayed on the binary by the hook). The
+    neighbour branches (Remove + AddBefore) and SwapLines are covered by the correspondence only. *)
+Theorem C02_swap_far_partial : forall s l a b,
+  repr s l -> In a l -> In b l -> a <> b -> prv s a <> b -> prv s b <> a ->
+  prv s a <> 0 -> prv (remove s a) b <> 0 ->
+  let p1 := prv s a in let p2 := prv (remove s a) b in
+  let l' := ins_after p1 b (ins_after p2 a (rem b (rem a l))) in
+  repr (swap s a b) l' /\ Permutation l l'.
+Proof. exact swap_far_abs. Qed.
+Print Assumptions C02_swap_far_partial.
+
+Theorem C02_swap_with_first_chunk_refuted :
+  to_list 4 (swap three 1 3) = [2; 1] /\ ~ Permutation (to_list 4 (swap three 1 3)) [1; 2; 3].
+Proof. exact swap_with_first_chunk_refuted. Qed.
+Print Assumptions C02_swap_with_first_chunk_refuted.
+
+Example C02_list_hypotheses_satisfiable :
+  repr three [1; 2; 3] /\ oks [1; 2; 3] [MoveAfter 1 3; MoveAfter 2 1; NewAfter 4 2 true 1; Delete 3].
+Proof. exact three_is_a_list. Qed.
